@@ -20,7 +20,7 @@ type c03Case struct {
 	Tail   []int        `json:"tail_advances_s"`
 }
 
-var c03Targets = []string{"/", "/a?x=1&y=%2F", "/a/b", "/p?next=https%3A%2F%2Fe.com%2F%3Fa%3Db", "/s;v=1/@:,"}
+var c03Targets = []string{"/", "/a%20b/c%2Fd?x=1&y=%2F", "/a/b", "/p?next=https%3A%2F%2Fe.com%2F%3Fa%3Db", "/s;v=1/@:,", "/docs/100%25/r%C3%A9sum%C3%A9.pdf", "/a?x=1&y=%2F"}
 
 func c03Answers() []world.Answer {
 	var as []world.Answer
